@@ -1095,6 +1095,22 @@ def r12_4(q, R, cx, spec):
                got={"continue_after_push": cont, "insert_conditions": [(k, H.render(c)[:50], p) for k, c, p in ic]})
         # file name
         kch = fn.trace(ins["args"][0])
+        # the file name computed by a private helper (`file_name_of(src, class)?`): traced inside the helper, its parameters standing for
+        # the arguments
+        for _ in range(2):
+            hs = [h for h in kch.hops if h[0] == "call" and len(h) > 3 and h[3] in q.by_key]
+            if len(hs) != 1 or kch.hops[-1] is not hs[0] and kch.hops[-1][0] != "some":
+                break
+            init = ins["args"][0]
+            l0 = H.local_of(init)
+            if l0:
+                init = H.let_init_of(fn.root, l0[0]) or init
+            call = next((x for x in H.walk(init) if x.get("k") == "call" and ((x.get("callee") or {}).get("inst_key") or (x.get("callee") or {}).get("key")) == hs[0][3]), None)
+            cb = q.by_key.get(hs[0][3])
+            if call is None or not isinstance(cb.get("body"), dict) or len(cb.get("params") or []) != len(call["args"]):
+                break
+            hfn = U.Fn(q, cb, subst={i: (fn, a) for i, a in enumerate(call["args"])})
+            kch = hfn.trace(hfn.root)
         r = U.role_of(kch, q, cx.key_eq)
         calls = [h for h in kch.hops if h[0] == "call"]
         okf = r is not None and r[0] == ("ClassMapping", "names", 1) and len(calls) == 1 and calls[0][1] == "unwrap_or" and isinstance(calls[0][2], U.Chain) \
